@@ -34,6 +34,12 @@ def run(ctx):
             d = gen.gen_definition(ctx.rng, n_state=ctx.rng.choice([2, 3]), n_control=nc and ctx.rng.choice([1, 2]),
                                    n_calib=nk and ctx.rng.choice([1, 2]), n_sensors=ctx.rng.choice([1, 2]), depth=2)
             d._kind = "ekf"
+            if len(d.state) >= 2:
+                # a reading that is bilinear in two different states (its Jacobian depends on the state although every pure
+                # second derivative vanishes)
+                k1 = sorted(d.sensors)[-1]
+                d.sensors[k1][gen.fresh_names(ctx.rng, 1, {x.name for x in d.all_symbols()} | {r for rd in d.sensors.values() for r in rd})[0]] = \
+                    d.state[0] * d.state[1] + d.state[-1]
             if rep % 2 == 0:
                 # a sensor with >= 2 readings declared in non-sorted order
                 k0 = sorted(d.sensors)[0]
@@ -44,7 +50,7 @@ def run(ctx):
             pt0 = gen.gen_point(ctx.rng, d)
             cal = pt0["cal"]
             cse = ctx.rng.random() < 0.5
-            k = ctx.rng.choice([None, 1.5, 5.0])
+            k = ctx.rng.choice([None, 0.5, 1.5, 5.0, 0.25])
             cfgdesc = {"def": d.describe(), "cse": cse, "filtering": k, "noise": {a: str(b) for a, b in process.items()},
                        "sensor_noise": {a: {r: str(v) for r, v in b.items()} for a, b in sensor.items()}, "cal": {a: str(b) for a, b in cal.items()}}
             try:
